@@ -135,7 +135,32 @@ Definition st_wf (s : hstatus) : bool :=
   (h_code s <=? max_i32) && forallb PctEnc.is_byte (h_msg s) &&
   ((h_code s =? 0) || match h_details s with [] => true | _ => marshalable s end).
 Definition op_wf (w : word) : bool :=
-  match decode_op w with Some s => st_wf s | None => false end.
+  match decode_op w with
+  | Some s => st_wf s
+  | None => match decode_stress w with Some (g, n, code) => code <=? max_i32 | None => false end
+  end.
+
+Lemma stress_bad_zero g n code : 1 <= code <= max_i32 -> stress_bad g n code = 0.
+Proof.
+  intro H. unfold stress_bad.
+  rewrite (wire_expected (mkst code stress_msg [])).
+  - assert (E: forall w, word_eqb w w = true).
+    { induction w as [|x w IH]; cbn [word_eqb]; [reflexivity|]. rewrite Z.eqb_refl, IH. reflexivity. }
+    rewrite E. reflexivity.
+  - unfold code_ok. cbn [h_code]. lia.
+  - reflexivity.
+  - right. left. reflexivity.
+Qed.
+
+Lemma decode_stress_code w g n code : decode_stress w = Some (g, n, code) -> 1 <= code.
+Proof.
+  unfold decode_stress. destruct w as [|k [|g0 [|n0 [|c0 [|? ?]]]]]; try discriminate;
+    try (destruct k as [|p|p]; try discriminate; destruct p as [p|p|]; try discriminate; destruct p; discriminate).
+  destruct k as [|p|p]; try discriminate. destruct p as [p|p|]; try discriminate. destruct p; try discriminate.
+  destruct ((g0 <? 0) || (n0 <? 0) || (c0 <? 1) || (c0 >? max_u32)) eqn:E; [discriminate|].
+  apply orb_false_iff in E as [E _]. apply orb_false_iff in E as [_ E]. apply Z.ltb_ge in E.
+  intro H. inversion H; subst. exact E.
+Qed.
 
 Lemma decode_op_code w s : decode_op w = Some s -> 0 <= h_code s.
 Proof.
@@ -155,7 +180,11 @@ Proof. induction w as [|x w IH]; cbn [word_eqb]; [reflexivity|]. rewrite Z.eqb_r
 Lemma clause_op_model i w : op_wf w = true ->
   exists ob, run_op w = Some ob /\ forallb (fun c => snd c) (clause_op i w ob) = true.
 Proof.
-  unfold op_wf, run_op, clause_op. destruct (decode_op w) as [s|] eqn:D; [|discriminate].
+  unfold op_wf, run_op, clause_op. destruct (decode_op w) as [s|] eqn:D.
+  2:{ destruct (decode_stress w) as [[[g n] code]|] eqn:DS; [|discriminate].
+      intro H. apply Z.leb_le in H. pose proof (decode_stress_code w g n code DS).
+      eexists; split; [reflexivity|]. rewrite stress_bad_zero by lia.
+      destruct (Z.gtb_spec code max_i32); [lia|]. reflexivity. }
   intro H. unfold st_wf in H. apply andb_true_iff in H as [H Hd]. apply andb_true_iff in H as [Hc Hb].
   apply Z.leb_le in Hc. pose proof (decode_op_code w s D) as H0.
   assert (Hok: code_ok s) by (unfold code_ok; lia).
